@@ -69,8 +69,8 @@ func gen(t *rapid.T) Case {
 		if o.Kind == "api" {
 			o.Action = rapid.SampledFrom([]string{"start", "start", "stop", "stop", "stop", "retry", "suspend", "mark-success", "mark-success", "mark-success", "mark-failed", "mark-failed", "mark-failed", "save", "rename", "bogus", "none", "malformed"}).Draw(t, "action")
 			o.ReqSel = rapid.IntRange(0, 5).Draw(t, "reqSel")
-			if (o.Action == "mark-success" || o.Action == "mark-failed") && rapid.IntRange(0, 2).Draw(t, "goodReq") > 0 {
-				o.ReqSel = rapid.IntRange(3, 4).Draw(t, "reqSelGood")
+			if o.Action == "mark-success" || o.Action == "mark-failed" {
+				o.ReqSel = rapid.SampledFrom([]int{3, 3, 4, 4, 4, 5, 5, 1, 2, 0}).Draw(t, "reqSelMark")
 			}
 			o.Step = rapid.SampledFrom([]int{0, 0, 1, 1, 2, 3}).Draw(t, "step")
 			o.Params = rapid.IntRange(0, len(paramPool)-1).Draw(t, "params")
